@@ -56,6 +56,7 @@ from vgi_rpc.utils import new_ipc_stream
 __all__ = [
     "ShmAllocator",
     "ShmSegment",
+    "free_shm_pointer",
     "is_shm_pointer_batch",
     "make_shm_pointer_batch",
     "maybe_write_to_shm",
@@ -639,6 +640,30 @@ def resolve_shm_batch(
         shm.free(offset)
 
     return resolved_batch, resolved_cm, release_fn
+
+
+def free_shm_pointer(
+    batch: pa.RecordBatch,
+    custom_metadata: pa.KeyValueMetadata | None,
+    shm: ShmSegment | None,
+) -> None:
+    """Free the region a pointer batch refers to without resolving it.
+
+    For a receiver that discards a batch instead of consuming it (for
+    example the input stream of a call that was rejected before its stream
+    opened): the sender allocated the region for us, so nobody else will
+    ever free it.  Non-pointer batches, ``shm=None`` and an offset that is
+    no longer allocated are ignored.
+    """
+    if shm is None or not is_shm_pointer_batch(batch, custom_metadata):
+        return
+    assert custom_metadata is not None  # guaranteed by is_shm_pointer_batch
+    offset_bytes = custom_metadata.get(SHM_OFFSET_KEY)
+    assert offset_bytes is not None  # guaranteed by is_shm_pointer_batch
+    try:
+        shm.free(int(offset_bytes))
+    except ValueError:
+        _shm_logger.debug("discarded shm pointer batch names no live region: %r", offset_bytes)
 
 
 def _resolve_shm_min_batch_bytes() -> int:
